@@ -489,6 +489,9 @@ func Drive(run *common.Run, prop string, b Budget) {
 		if c.Sched {
 			run.Count("controlled-schedule(synctest)")
 		}
+		if c.OneP {
+			run.Count("single-P schedule (GOMAXPROCS 1)")
+		}
 		if c.OwnLim && res.LimProbes > 0 {
 			run.Count("limiter read at every event (verif hook)")
 			run.Extra["limiter_probes"] = maxInt(run.Extra["limiter_probes"], 0) + res.LimProbes
